@@ -17,7 +17,22 @@ keystore are compared with the extracted manager model (a difference is a violat
 manager:unlock-state / manager:outcome) and the property's predicates are evaluated on the
 implementation's own observations (all keystores wiped after every completed SignRawTx and every
 ClearPrivKey; a refused attempt changes no keystore but the master-key scratch value and unlocks
-none; an operation on one keystore changes no other)."""
+none; an operation on one keystore changes no other).
+FAULT family (harness/cmd/c05 -flt, faults.go; model events SEnvFail of Keys/Secrecy.v): error paths that
+exist only when the environment fails. The chain database handed to the wallet is wrapped
+(internal/sim/chainfault.go: the used-address look-up CheckScriptHashUsed and, separately, the fetch
+calls of imports / rescans / start-up fail on demand) and so is the wallet database (internal/dbwrap:
+the numbered call fails); every secret-bearing operation (create, mnemonic import with and without
+index hints and of a fresh sentence, keystore import, removal with its background steps, export,
+reveal, SignHash, SignRawTx, NewAddress, UseWallet, public / private passphrase change, restart) runs
+fault-free once and then under each fault kind at sampled call numbers (thorough: all, up to a cap),
+single, repeated and persistent; after every attempt the returned error text, the raw database and
+every export are searched for every secret of every wallet of the history, the wallets whose creation
+or import failed included. The verdict is only about secrets appearing (fail/succeed cleanly is C18).
+The taint scan (harness/cmd/c05/taint.go) knows every secret raw, hex / HEX, as Go prints byte
+slices (%v / %d "[64 35 88]", % x, %#v "[]byte{0x40, ...}", %q), comma-separated decimals,
+JSON-escaped, base64 (both alphabets), whole and by windows (8 consecutive bytes, 3 consecutive
+mnemonic words, 9 bytes for base64); a self-test plants each printing and must find it."""
 import json
 import os
 import re
@@ -25,7 +40,7 @@ import vcheck as V
 
 PID = "C05"
 TRUSTED = [
-    "Coq 8.16.1 kernel (coqc), full .vo build; vm_compute in one Example (C05_ex_history); no native_compute",
+    "Coq 8.16.1 kernel (coqc), full .vo build; vm_compute in two Examples (C05_ex_history, C05_ex_history_with_failures) and in the membership parts of the closed witness C05_error_carrying_parameters_refuted; no native_compute",
     "axioms: none (Print Assumptions: Closed under the global context for every theorem)",
     "symbolic-crypto assumptions are the term algebra of Keys/Store.v itself: Enc opens only with its key, Hash and Kdf are free one-way constructors, passphrases and random keys are atoms distinct from every public byte string; algebraic relations of secp256k1 (public derivation, parent-from-child) are outside the algebra",
     "section hypotheses of Part 2 (premises, not axioms): unlock_laws (see C03)",
@@ -34,6 +49,8 @@ TRUSTED = [
     "Go harness: harness/cmd/c05, internal/simx + internal/sim (real WalletManager on LevelDB), internal/bipref + internal/bip39ref (independent derivation of every secret to search for), goleveldb opened on a COPY of the wallet database directory; scrypt N lowered to 16",
     "hooks (build tag verif): masswallet/hooks_verif.go, masswallet/keystore/unlock_verif.go, unlock_salt_verif.go",
     "manager family: harness/cmd/c05/manager.go on internal/hist + internal/sim; the wallet database is wrapped (mwdb.DB interface) so that UseWallet requests run before chosen read transactions of a SignRawTx call (deterministic interleaving of a concurrent request); model Keys/Manager.v over Keys/Toy.v, list order standing for Go's map order (irrelevant when the address sets of the keystores are disjoint)",
+    "fault family: harness/cmd/c05/faults.go on internal/sim/chainfault.go (the chain database the wallet reads, wrapped: injected errors on CheckScriptHashUsed and on the fetch calls) and internal/dbwrap (numbered wallet-database calls); the injected errors are the wrappers' own constant texts; errors of background tasks are only logged by the wallet and therefore not seen (the database after them is scanned)",
+    "taint scan: harness/cmd/c05/taint.go (needle index by 4-byte prefix; encodings listed in its header); its self-test runs on every check",
     "not covered: real cryptographic strength; copies of secrets in the Go heap (zeroing is best effort, the GC may keep copies); log files; the random crypto keys (cryptoKeyPriv/Ent/Pub) are unknown to the harness and therefore not searched for",
 ]
 SFIX = True   # see checks/C03.py
@@ -64,7 +81,7 @@ def manager_family(c, exe_go, exe_model, n, only=None):
         open(impl, "w").write("".join(lines))
         gstats = "replay"
     else:
-        rc, o, e = V.sh([exe_go, "-mgr", "-n", str(n), "-out", impl, "-j", str(V.NCPU)], timeout=3000)
+        rc, o, e = V.sh([exe_go, "-mgr", "-n", str(n), "-out", impl, "-j", str(min(8, V.NCPU))], timeout=3000)
         gstats = e.strip().splitlines()[-1] if e.strip() else ""
         if rc != 0:
             return None, ["harness cmd/c05 -mgr failed to run: " + (o + e)[-1500:]], []
@@ -191,6 +208,99 @@ def manager_family(c, exe_go, exe_model, n, only=None):
     return st, corr, herr
 
 
+def fault_family(c, exe_go, n, sweep, only=None):
+    """runs the fault family and judges it; returns (stats dict | None, break text | None, harness errors)"""
+    rc, o, e = V.sh([exe_go, "-selftest"], timeout=120)
+    if rc != 0 or "SELFTEST ok" not in o:
+        return None, "the taint scan of harness/cmd/c05 no longer finds planted leaks: " + (o + e)[-800:], []
+    impl = os.path.join(c.workdir, "impl-faults.txt")
+    flags = ["-flt"] + (["-sweep"] if sweep else [])
+    if only is not None:
+        lines = []
+        for f in only[:8]:
+            rc, o, e = V.sh([exe_go] + flags + ["-worker", "-first", str(f), "-n", "1"], timeout=900)
+            lines.append(o)
+        open(impl, "w").write("".join(lines))
+        gstats = "replay"
+    else:
+        rc, o, e = V.sh([exe_go] + flags + ["-n", str(n), "-out", impl, "-j", str(min(8, V.NCPU))], timeout=3000)
+        gstats = e.strip().splitlines()[-1] if e.strip() else ""
+        if rc != 0:
+            return None, "harness cmd/c05 -flt failed to run: " + (o + e)[-1500:], []
+    st = {"histories": set(), "attempts": 0, "by_op": {}, "by_fault": {}, "injected": {}, "failed_under_fault": 0, "succeeded_under_fault": 0,
+          "panics": 0, "points": {}, "base_calls": {}, "distinct": set(), "sites": set(), "scans": 0, "bytes": 0, "needles_max": 0,
+          "recoveries": 0, "error_texts": set(), "gen": gstats, "sample": []}
+    herr = []
+    per = {}
+    for l in V.read_lines(impl):
+        if not l:
+            continue
+        f = l.split("\t")
+        if f[0] == "X":
+            herr.append(l)
+            continue
+        if f[0] in ("FH", "FO", "F", "N", "FD"):
+            per.setdefault(int(f[1]), []).append(f)
+    for h, fl in sorted(per.items()):
+        st["histories"].add(h)
+        rerun = "VERIF_SEED=%d /verif/build/bin/c05 -flt%s -worker -first %d -n 1" % (c.seed, " -sweep" if sweep else "", h)
+        steps, seq, finds = {}, [], {}
+        for f in fl:
+            if f[0] == "FO":
+                _, _, step, op, kind, at, count, inj, first, dbc, lk, fe, outcome = f[:13]
+                text = f[13] if len(f) > 13 else "-"
+                cnt = "persistent" if int(count) >= (1 << 20) else count
+                desc = "%s fault=%s%s -> %s%s" % (op, kind, "" if kind == "none" else " at call %s x%s (injected %s, first: %s)" % (at, cnt, inj, first),
+                                                 outcome, "" if text == "-" else ' "%s"' % text[:300])
+                steps[int(step)] = (op, kind, desc)
+                seq.append((int(step), desc))
+                st["attempts"] += 1
+                st["by_op"][op] = st["by_op"].get(op, 0) + 1
+                st["by_fault"][kind] = st["by_fault"].get(kind, 0) + 1
+                if kind == "none":
+                    b = st["base_calls"].setdefault(op, [0, 0, 0])
+                    for i, v in enumerate((dbc, lk, fe)):
+                        b[i] = max(b[i], int(v))
+                elif int(inj) > 0:
+                    st["injected"][kind] = st["injected"].get(kind, 0) + 1
+                    st["points"].setdefault(op + "/" + kind, set()).add(int(at))
+                    st["sites"].add((op, kind, first))
+                    if outcome == "ok":
+                        st["succeeded_under_fault"] += 1
+                    else:
+                        st["failed_under_fault"] += 1
+                if outcome == "panic":
+                    st["panics"] += 1
+                st["distinct"].add((op, kind, first, outcome))
+                if text != "-":
+                    st["error_texts"].add(re.sub(r"[0-9a-f]{16,}|ac1[0-9a-z]{20,}", "#", text)[:120])
+                if len(st["sample"]) < 12 and kind != "none":
+                    st["sample"].append("\t".join(f)[:300])
+            elif f[0] == "N":
+                st["scans"] += 1
+                st["bytes"] += int(f[5])
+                st["needles_max"] = max(st["needles_max"], int(f[3]))
+            elif f[0] == "FD":
+                st["recoveries"] += 1
+                seq.append((int(f[2]), "harness recovery: " + f[3]))
+            elif f[0] == "F":
+                finds.setdefault((int(f[2]), f[3]), []).append(f[4])
+        reported = set()
+        for (step, where), whats in sorted(finds.items()):
+            op, kind, desc = steps.get(step, ("?", "?", "(no operation line for this step)"))
+            classes = sorted({w.split(":")[0].rstrip("0123456789.") for w in whats})
+            encs = sorted({w.split(":")[-1] for w in whats})
+            key = "fault:plain-secret:%s:%s:%s" % (where.split(":")[0], kind, "+".join(classes))
+            st["finds"] = st.get("finds", 0) + 1
+            if key in reported:   # one report per (key, history): the later steps of a history repeat the first
+                continue
+            reported.add(key)
+            c.violation(key, "fault history %d step %d: %s — the secrets %s appear in clear (as %s) in [%s]" % (h, step, desc, classes, encs, where),
+                        {"family": "faults", "fhistory": h, "step": step, "where": where, "found": whats[:40],
+                         "sequence": ["step %d: %s" % x for x in seq if x[0] <= step][-40:], "rerun": rerun})
+    return st, None, herr
+
+
 def main(tier, replay=None):
     c = V.Check(PID, tier)
     proofs_ok = c.proofs(gen_only=["Consts.v"], extra_targets=["Keys/Exec.vo", "Keys/ExecManager.vo"])
@@ -212,6 +322,7 @@ def main(tier, replay=None):
         rp = json.load(open(replay))
         firsts = sorted({v["replay"]["history"] for v in rp.get("violations", []) if "history" in v.get("replay", {})})
         mfirsts = sorted({v["replay"]["mhistory"] for v in rp.get("violations", []) if "mhistory" in v.get("replay", {})})
+        ffirsts = sorted({v["replay"]["fhistory"] for v in rp.get("violations", []) if "fhistory" in v.get("replay", {})})
         os.environ["VERIF_SEED"] = str(rp.get("seed", c.seed))
         lines = []
         for f in firsts[:30]:
@@ -220,7 +331,7 @@ def main(tier, replay=None):
         open(impl, "w").write("".join(lines))
         stats = "replay"
     else:
-        rc, o, e = V.sh([outs[0], "-n", str(n), "-out", impl, "-j", str(V.NCPU)], timeout=3000)
+        rc, o, e = V.sh([outs[0], "-n", str(n), "-out", impl, "-j", str(min(8, V.NCPU))], timeout=3000)
         stats = e.strip().splitlines()[-1] if e.strip() else ""
         if rc != 0:
             return c.finish(TRUSTED, no_input_break="harness cmd/c05 failed to run: " + (o + e)[-1500:])
@@ -231,6 +342,13 @@ def main(tier, replay=None):
     mst, mcorr, mherr = manager_family(c, outs[0], exe, 48 if tier == "quick" else 700, only=(mfirsts if replay else None))
     if mst is None:
         return c.finish(TRUSTED, no_input_break=mcorr[0])
+    # the fault family
+    nf = 16 if tier == "quick" else 8
+    if c.escalated and tier == "quick":
+        nf *= 2
+    fst, fbrk, fherr = fault_family(c, outs[0], nf, tier != "quick", only=(ffirsts if replay else None))
+    if fst is None:
+        return c.finish(TRUSTED, no_input_break=fbrk)
 
     ilines = [l for l in V.read_lines(impl) if l]
     mlines = mo.splitlines()
@@ -354,20 +472,20 @@ def main(tier, replay=None):
         hs = sorted({h for h, _ in corr})
         brk = ("the implementation no longer corresponds to the model (Keys/Store.v row table / Keys/Unlock.v) on %d observations (first: history %d: %s); rerun: VERIF_SEED=%d /verif/build/bin/c05 -worker -first %d -n 1"
                % (len(corr), corr[0][0], corr[0][1][:700], c.seed, hs[0]))
-    harness_err += mherr
+    harness_err += mherr + fherr
     if harness_err and not c.violations and not brk:
         brk = "the harness could not run %d histories: %s" % (len(harness_err), harness_err[0][:500])
     sample = hist_lines[min(hist_lines)][:12] if hist_lines else []
     c.coverage.update({
-        "evaluations": nO + nK + mst["ops"],
-        "distinct_nontrivial": len(distinct) + len(mst["distinct"]),
+        "evaluations": nO + nK + mst["ops"] + fst["attempts"],
+        "distinct_nontrivial": len(distinct) + len(mst["distinct"]) + len(fst["distinct"]),
         "rule": "one evaluation = one step of a wallet life followed by a full scan (raw LevelDB keys, values, file bytes; exports; errors) and a row-shape comparison, or one secret-needing operation with a candidate passphrase; "
                 "distinct_nontrivial = distinct (operation, passphrase class, outcome, unlock state before/after) and (step kind, number of rows). "
-                "Secrets searched: mnemonic sentence and every 4-word window, entropy, seed, root/purpose/coin/account/branch extended private keys (raw scalar, hex, base58 string), every issued address's private key, private and public passphrases (raw, hex). " + stats,
+                "Secrets searched: mnemonic sentence and every 3-word window, entropy, seed, root/purpose/coin/account/branch extended private keys (scalar, base58 string), every issued address's private key, private and public passphrases; each raw, hex/HEX, as Go's fmt prints byte slices (%v/%d decimal list, % x, %#v 0x list, %q), comma-separated decimals, JSON-escaped, base64 std/URL, whole and by windows of 8 bytes (9 for base64). " + stats,
         "histories": len(hist_lines), "operations": nO, "row_comparisons": nK, "scans": nscan, "bytes_scanned": scanned,
         "passphrase_classes": pass_kinds,
         "model_key_names_checked_against_db_go": sorted(model_names),
-        "samples": [sample, mst["sample"]],
+        "samples": [sample, mst["sample"], fst["sample"]],
         "manager_family": {
             "rule": "one evaluation = one operation on a manager holding 2-3 wallets followed by the observation of the selection and of the unlock state of every managed keystore, compared with the extracted model of Keys/Manager.v and judged by the predicates (wiped after SignRawTx / ClearPrivKey, refusal frame, keystore frame, gate); distinct = distinct (operation, passphrase class, outcome, observation before, observation after). " + mst["gen"],
             "histories": len(mst["histories"]), "operations": mst["ops"], "by_kind": mst["kinds"], "passphrase_classes": mst["pass_kinds"],
@@ -377,7 +495,20 @@ def main(tier, replay=None):
             "signrawtx_with_selection_change_inside": mst["raw_switched"],
             "signrawtx_completed_with_two_signing_keystores": mst["raw_two_signers"],
         },
-        "disagreements_checked": nO + nK + mst["ops"],
+        "fault_family": {
+            "rule": "one evaluation = one operation of the real wallet run fault-free or under one fault plan (wallet-database call number / chain look-up call number / chain fetch call number, single, repeated or persistent; armed through the background task of imports and removals), followed by a scan of the returned error text, of the raw LevelDB content and of every export for every secret of every wallet of the history in every encoding; distinct = distinct (operation, fault kind, first failing call site, outcome class). " + fst["gen"],
+            "histories": len(fst["histories"]), "attempts": fst["attempts"], "by_operation": fst["by_op"], "by_fault_kind": fst["by_fault"],
+            "attempts_with_a_fault_injected": fst["injected"], "failed_under_fault": fst["failed_under_fault"],
+            "succeeded_under_fault": fst["succeeded_under_fault"], "panics_under_fault": fst["panics"],
+            "environment_calls_of_the_fault_free_run(db,lookup,fetch)": fst["base_calls"],
+            "distinct_call_numbers_hit": {k: len(v) for k, v in sorted(fst["points"].items())},
+            "distinct_failing_call_sites": len(fst["sites"]),
+            "distinct_error_texts": len(fst["error_texts"]), "error_text_samples": sorted(fst["error_texts"])[:40],
+            "distinct_nontrivial": len(fst["distinct"]), "scans": fst["scans"], "bytes_scanned": fst["bytes"],
+            "needles_at_most": fst["needles_max"], "harness_recoveries": fst["recoveries"], "steps_with_a_secret_found": fst.get("finds", 0),
+            "note": "SignHash makes no environment call (cached keystore): it has no fault point; ChangePrivPassphrase is refused for version-0 keystores before it writes",
+        },
+        "disagreements_checked": nO + nK + mst["ops"] + fst["attempts"],
         "correspondence_mismatches": len(corr),
     })
     c.assumptions = ["sequential calls", "scrypt N lowered to 16 by the harness",
